@@ -19,9 +19,11 @@ Declined: idempotence of normalize_path / "canonical path is a fixed point" as v
 behaviour of werkzeug's redirect().
 """
 import ast
+import re
 
 from ..core import AnalysisError, norm, short
-from .dispatch import DispatchView
+from .dispatch import DispatchView, strip_not, Defs, resolve_local, run_group
+from ..astutil import argn
 from .common import (cfg_of, fkey, conds, has_cond, cond_texts, stmts_of, walk_body, call_tail, call_name, returns_of,
                      stmt_of, kwarg, names_loaded)
 
@@ -29,30 +31,69 @@ APP, ROUTE = 'clastic.application', 'clastic.route'
 QUOTERS = {'url_quote', 'quote', 'url_quote_plus_path', 'quote_from_bytes'}
 
 
+def bind_kwargs_written(fi):
+    """[(key, node, value expr or None)]: the literal keys ``fi`` puts into the keyword mapping it hands to a
+    ``.bind(..)`` / ``bind_all(..)`` / ``BoundRoute(..)`` call -- explicit keywords of that call, the keys of the
+    ``**mapping`` (dict display / dict(..) / later .update / .setdefault / item stores, through the local that holds it),
+    and item stores / setdefaults whose key runs over a constant tuple (``for k in ('a', 'b'): kw.setdefault(k, ..)``)."""
+    from .. import layers
+    out, seen = [], set()
+    calls = [c for c in walk_body(fi.node) if isinstance(c, ast.Call) and call_tail(c) in ('bind', 'bind_all', 'BoundRoute') and
+             any(k.arg is None for k in c.keywords)]
+    for c in calls:
+        for k in c.keywords:
+            if k.arg is not None:
+                out.append((k.arg, c, k.value))
+                continue
+            x = k.value
+            if isinstance(x, ast.Name):
+                if x.id in seen:
+                    continue
+                seen.add(x.id)
+                lay = layers.layers_of_var(fi.node, x.id, 3)
+                var = x.id
+                for lp in [s for s in stmts_of(fi.node) if isinstance(s, ast.For) and isinstance(s.target, ast.Name) and
+                           isinstance(s.iter, (ast.Tuple, ast.List)) and all(isinstance(e, ast.Constant) for e in s.iter.elts)]:
+                    for n in ast.walk(lp):
+                        key_expr = None
+                        if isinstance(n, ast.Call) and norm(n.func) == '%s.setdefault' % var and n.args:
+                            key_expr = n.args[0]
+                        elif isinstance(n, ast.Assign) and isinstance(n.targets[0], ast.Subscript) and norm(n.targets[0].value) == var:
+                            key_expr = n.targets[0].slice
+                        if isinstance(key_expr, ast.Name) and key_expr.id == lp.target.id:
+                            out.extend((e.value, n, None) for e in lp.iter.elts)
+            else:
+                lay = layers.layers_of_expr(x)
+            for l in lay:
+                if l.kind == 'literal':
+                    out.extend((key, l.node, (l.values or {}).get(key)) for key in l.keys)
+    return out
+
+
 def bind_kwarg_agreement(rep, rule):
     """Keys written into bind kwargs by callers are a subset of the keys BoundRoute.__init__ pops."""
     repo = rep.repo
     route, app = repo.mod(ROUTE), repo.mod(APP)
     bi = route.func('BoundRoute.__init__')
+    kwname = bi.node.args.kwarg.arg if bi.node.args.kwarg is not None else 'kwargs'
     popped = {}
     for c in walk_body(bi.node):
-        if isinstance(c, ast.Call) and norm(c.func) == 'kwargs.pop' and c.args and isinstance(c.args[0], ast.Constant):
+        if isinstance(c, ast.Call) and norm(c.func) == '%s.pop' % kwname and c.args and isinstance(c.args[0], ast.Constant):
             popped[c.args[0].value] = c.args[1] if len(c.args) > 1 else None
     written = []
-    for mod, q, var in ((app, 'Application.add', 'kwargs'), (app, 'SubApplication.bind_all', 'kwargs'), (route, 'NullRoute.bind', 'kw')):
+    for mod, q in ((app, 'Application.add'), (app, 'SubApplication.bind_all'), (route, 'NullRoute.bind')):
         fi = mod.func(q)
-        for n in walk_body(fi.node):
-            if isinstance(n, ast.Call) and norm(n.func) == '%s.setdefault' % var and n.args and isinstance(n.args[0], ast.Constant):
-                written.append((mod, fi, n.args[0].value, n))
-            if isinstance(n, ast.Assign) and isinstance(n.targets[0], ast.Subscript) and norm(n.targets[0].value) == var and \
-                    isinstance(n.targets[0].slice, ast.Constant):
-                written.append((mod, fi, n.targets[0].slice.value, n))
+        seen = set()
+        for key, node, val in bind_kwargs_written(fi):
+            if key not in seen:
+                seen.add(key)
+                written.append((mod, fi, key, node))
     for mod, fi, key, node in written:
         rep.check(rule, fkey(fi, "kwargs[%r]" % key), key in popped,
                   "bind keyword %r is consumed by BoundRoute.__init__" % key if key in popped else
                   "%s passes bind keyword %r which BoundRoute.__init__ does not pop (TypeError at bind, or the flag is ignored under another name)"
                   % (fi.qualname, key), mod, node)
-    ok = any(isinstance(s, ast.If) and norm(s.test) == 'kwargs' and any(isinstance(r, ast.Raise) for r in ast.walk(s)) for s in stmts_of(bi.node))
+    ok = any(isinstance(s, ast.If) and norm(s.test) == kwname and any(isinstance(r, ast.Raise) for r in ast.walk(s)) for s in stmts_of(bi.node))
     rep.check(rule, fkey(bi, 'leftover kwargs'), ok, 'unknown bind keywords are rejected' if ok else 'unknown bind keywords are silently ignored', route, bi.node)
     return popped, written
 
@@ -60,9 +101,6 @@ def bind_kwarg_agreement(rep, rule):
 def run(rep):
     repo = rep.repo
     app, route = repo.mod(APP), repo.mod(ROUTE)
-    dv = DispatchView(repo)
-    cfg, f = dv.cfg, dv.fi
-    rv = dv.route_var
     rep.decide('R07.a dominance conditions of the redirect / strict / rewrite branches; R07.b Location escaping (taint); '
                'R07.c slash-mode inheritance plumbing')
     rep.decline('idempotence of normalize_path and one-hop as value statements; werkzeug.redirect behaviour')
@@ -71,251 +109,488 @@ def run(rep):
     rep.rule('R07.b', 'taint: request.path-derived text reaches redirect() only through a URL-quoting call')
     rep.rule('R07.c', 'slash_mode selection and kwarg-name agreement of bind keywords')
 
-    # ---- R07.a -----------------------------------------------------------
-    if len(dv.redirect_calls) != 1:
-        raise AnalysisError('Application.dispatch: expected exactly one redirect(...) call, found %d' % len(dv.redirect_calls))
-    rc = dv.redirect_calls[0]
-    rst = stmt_of(app, rc)
-    cs = conds(f, rst)
-    npv = [norm(s.targets[0]) for s in stmts_of(f.node) if isinstance(s, ast.Assign) and isinstance(s.value, ast.Call)
-           and call_name(s.value) == 'normalize_path']
-    if len(npv) != 1:
-        raise AnalysisError('dispatch: normalize_path assignment not found')
-    npv = npv[0]
-    checks = [
-        ('pattern matched', dv.matched_conds(cs)),
-        ('method admitted', dv.method_ok_conds(cs)),
-        ('route is a branch', has_cond(cs, lambda t: norm(t) == '%s.is_branch' % rv, True)),
-        ('path is not canonical', has_cond(cs, lambda t: norm(t) in ('%s != url_path' % npv, 'url_path != %s' % npv), True)),
-        ('redirect mode', has_cond(cs, lambda t: norm(t) in ('%s.slash_mode == S_REDIRECT' % rv, 'S_REDIRECT == %s.slash_mode' % rv), True)),
-    ]
-    for label, ok in checks:
-        rep.check('R07.a', fkey(f, 'redirect requires: ' + label), ok,
-                  'redirect(...) is dominated by "%s"' % label if ok else
-                  'a slash redirect can be issued although "%s" does not hold (conditions: %s)' % (label, '; '.join(cond_texts(cs))), app, rst)
-    ok = isinstance(rst, ast.Return) and rst.value is rc
-    rep.check('R07.a', fkey(f, 'redirect returned'), ok, 'the redirect response is returned immediately' if ok else
-              'the redirect response is not returned directly', app, rst)
-    nps = [s for s in stmts_of(f.node) if isinstance(s, ast.Assign) and norm(s.targets[0]) == npv][0]
-    ok = [norm(a) for a in nps.value.args] == ['url_path', '%s.is_branch' % rv]
-    rep.check('R07.a', fkey(f, 'canonical form'), ok, 'canonical path = normalize_path(request path, route.is_branch)' if ok else
-              'normalize_path is not applied to (url_path, route.is_branch)', app, nps)
-    # strict
-    def _is_strict(t_, p_):
-        s = norm(t_)
-        if s in ('%s.slash_mode == S_STRICT' % rv, 'S_STRICT == %s.slash_mode' % rv):
-            return p_
-        if s in ('%s.slash_mode != S_STRICT' % rv, 'S_STRICT != %s.slash_mode' % rv):
-            return not p_
-        return None
-    strict_t = [nid for nid, t_, p_ in cfg.branches() if _is_strict(t_, p_) is True]
-    addx = dv.calls_stmt('add_exception', dv.ds_var)
-    addx_nf = []
-    for s in addx:
-        a = s.value.args[0]
-        srcs = [x.value for x in stmts_of(f.node) if isinstance(x, ast.Assign) and norm(x.targets[0]) == norm(a)]
-        if any(isinstance(v, ast.Call) and norm(v.func).endswith('not_found_type') for v in srcs) or \
-                (isinstance(a, ast.Call) and norm(a.func).endswith('not_found_type')):
-            addx_nf.append(s)
-    exec_nodes = cfg.nodes_of(dv.exec_st)
-    ok = bool(strict_t) and bool(addx_nf) and cfg.must_pass(cfg.nodes_of_all(addx_nf), strict_t, dv.head + [cfg.exit], normal_only=True) and \
-        not (set(exec_nodes) & cfg.reach(strict_t, avoid=dv.head))
-    rep.check('R07.a', fkey(f, 'strict mode'), ok,
-              'strict mode: a non-canonical path records a not-found error and the route is not executed' if ok else
-              'strict mode does not reliably skip the route with a recorded not-found error', app, addx_nf[0] if addx_nf else dv.loop)
-    strict_f = [nid for nid, t_, p_ in cfg.branches() if _is_strict(t_, p_) is False]
-    ok = bool(strict_f) and bool(set(exec_nodes) & cfg.reach(strict_f, avoid=dv.head, normal_only=True))
-    rep.check('R07.a', fkey(f, 'rewrite mode'), ok, 'in neither mode (rewrite) the route is executed directly' if ok else
-              'rewrite mode does not fall through to execute', app, dv.exec_st)
-    # canonical paths never redirect: the != test is the only way in (already dominated) ; leaf routes never redirect (is_branch)
-    rep.floor('R07.a', 9)
+    def redirect_rules():
+        dv = DispatchView(repo)
+        cfg, f = dv.cfg, dv.fi
+        rv = dv.route_var
+        # ---- R07.a -----------------------------------------------------------
+        if len(dv.redirect_calls) != 1:
+            raise AnalysisError('Application.dispatch: expected exactly one redirect(...) call, found %d' % len(dv.redirect_calls))
+        rc = dv.redirect_calls[0]
+        rst = stmt_of(app, rc)
+        cs = dv.conds(rst)
+        npc = [c for c in walk_body(f.node) if isinstance(c, ast.Call) and call_name(c) == 'normalize_path']
+        if len(npc) != 1:
+            raise AnalysisError('dispatch: expected exactly one normalize_path(...) call, found %d' % len(npc))
+        npc = npc[0]
+        nps = stmt_of(app, npc)
+        if not (isinstance(nps, ast.Assign) and nps.value is npc and len(nps.targets) == 1 and isinstance(nps.targets[0], ast.Name)):
+            raise AnalysisError('dispatch: the result of normalize_path(...) is not bound to a local')
+        npv = nps.targets[0].id
+        np_path = argn(npc, 'path', 0)
 
-    # ---- R07.b -----------------------------------------------------------
-    arg = rc.args[0]
+        def is_noncanonical(t):
+            """polarity under which comparison ``t`` says: normalize_path(request path, ..) differs from the request path"""
+            if not (isinstance(t, ast.Compare) and len(t.ops) == 1 and isinstance(t.ops[0], (ast.Eq, ast.NotEq))):
+                return None
+            a_, b_ = t.left, t.comparators[0]
+            for x, y in ((a_, b_), (b_, a_)):
+                if isinstance(x, ast.Call) and norm(x) == norm(npc) and np_path is not None and norm(y) == norm(np_path):
+                    return isinstance(t.ops[0], ast.NotEq)
+            return None
 
-    def pieces(e, depth=0):
-        """Flatten a string-building expression into its concatenated pieces."""
-        if depth > 8:
+        def is_mode(t, const):
+            """polarity under which comparison ``t`` says: the route's slash mode is ``const``"""
+            if not (isinstance(t, ast.Compare) and len(t.ops) == 1 and isinstance(t.ops[0], (ast.Eq, ast.NotEq))):
+                return None
+            a_, b_ = t.left, t.comparators[0]
+            for x, y in ((a_, b_), (b_, a_)):
+                if norm(x) == '%s.slash_mode' % rv and norm(y) == const:
+                    return isinstance(t.ops[0], ast.Eq)
+            return None
+
+        def holds(cs_, pred):
+            return any(pred(t) is not None and pred(t) is p for t, p in cs_)
+        checks = [
+            ('pattern matched', dv.matched_conds(cs)),
+            ('method admitted', dv.method_ok_conds(cs)),
+            ('route is a branch', has_cond(cs, lambda t: norm(t) == '%s.is_branch' % rv, True)),
+            ('path is not canonical', holds(cs, is_noncanonical)),
+            ('redirect mode', holds(cs, lambda t: is_mode(t, 'S_REDIRECT'))),
+        ]
+        for label, ok in checks:
+            rep.check('R07.a', fkey(f, 'redirect requires: ' + label), ok,
+                      'redirect(...) is dominated by "%s"' % label if ok else
+                      'a slash redirect can be issued although "%s" does not hold (conditions: %s)' % (label, '; '.join(cond_texts(cs))), app, rst)
+        ok = isinstance(rst, ast.Return) and rst.value is rc
+        rep.check('R07.a', fkey(f, 'redirect returned'), ok, 'the redirect response is returned immediately' if ok else
+                  'the redirect response is not returned directly', app, rst)
+        np_branch = argn(npc, 'is_branch', 1)
+        ok = np_path is not None and dv.is_request_attr(np_path, 'path') and norm(np_path) == norm(dv.match_call.args[0]) and np_branch is not None and \
+            (norm(np_branch) == '%s.is_branch' % rv or
+             (isinstance(np_branch, ast.Constant) and np_branch.value is True and has_cond(dv.conds(nps), lambda t: norm(t) == '%s.is_branch' % rv, True)))
+        rep.check('R07.a', fkey(f, 'canonical form'), ok, 'canonical path = normalize_path(request path, route.is_branch)' if ok else
+                  'normalize_path is not applied to (url_path, route.is_branch)', app, nps)
+        # strict
+        bnodes = [n.id for n in cfg.nodes if n.kind == 'branch' and cfg.reachable(n.id)]
+
+        def says(cs_, pred, want=True):
+            return any(pred(t) is not None and (pred(t) is p) is want for t, p in cs_)
+        is_strict = lambda t: is_mode(t, 'S_STRICT')
+        is_branch_t = lambda t: True if norm(t) == '%s.is_branch' % rv else None
+        # entry points of the region "the mode is strict and the path is not canonical"
+        region = [nid for nid in bnodes if says(dv.branch_conds(nid, full=True), is_strict) and says(dv.branch_conds(nid, full=True), is_noncanonical)]
+        strict_t = [n for n in region if not any(n in cfg.reach([m], avoid=dv.head, include_src=False) for m in region if m != n)]
+        addx = dv.calls_stmt('add_exception', dv.ds_var)
+        addx_nf = []
+        for s in addx:
+            a = s.value.args[0]
+            srcs = [x.value for x in stmts_of(f.node) if isinstance(x, ast.Assign) and norm(x.targets[0]) == norm(a)]
+            if any(isinstance(v, ast.Call) and norm(v.func).endswith('not_found_type') for v in srcs) or \
+                    (isinstance(a, ast.Call) and norm(a.func).endswith('not_found_type')):
+                addx_nf.append(s)
+        exec_nodes = cfg.nodes_of(dv.exec_st)
+        ok = bool(strict_t) and bool(addx_nf) and cfg.must_pass(cfg.nodes_of_all(addx_nf), strict_t, dv.head + [cfg.exit], normal_only=True) and \
+            not (set(exec_nodes) & cfg.reach(strict_t, avoid=dv.head))
+        rep.check('R07.a', fkey(f, 'strict mode'), ok,
+                  'strict mode: a non-canonical path records a not-found error and the route is not executed' if ok else
+                  'strict mode does not reliably skip the route with a recorded not-found error', app, addx_nf[0] if addx_nf else dv.loop)
+        # rewrite: some way leads from the loop header to execute without redirecting, without recording the strict-mode error and
+        # without ever taking a branch that says "the path is canonical" or "the route is a leaf"
+        blocked = [nid for nid in bnodes if says(dv.branch_conds(nid), is_noncanonical, False) or says(dv.branch_conds(nid), is_branch_t, False)]
+        avoid = set(dv.head) | set(blocked) | set(cfg.nodes_of(rst)) | set(cfg.nodes_of_all(addx_nf))
+        ok = bool(blocked) and bool(set(exec_nodes) & cfg.reach(dv.iter_nodes, avoid=avoid, normal_only=True))
+        rep.check('R07.a', fkey(f, 'rewrite mode'), ok, 'in neither mode (rewrite) the route is executed directly' if ok else
+                  'rewrite mode does not fall through to execute', app, dv.exec_st)
+        # canonical paths never redirect: the != test is the only way in (already dominated) ; leaf routes never redirect (is_branch)
+        rep.floor('R07.a', 9)
+
+        # ---- R07.b -----------------------------------------------------------
+        arg = rc.args[0]
+
+        _PCT, _BRACE = re.compile(r'%(?:s|r|d|%)'), re.compile(r'\{\}|\{\{|\}\}')
+
+        def _interleave(fmt, directive, args, depth):
+            """template text and arguments of ``fmt % args`` / ``fmt.format(*args)`` in the order they appear in the result"""
+            fallback = [fmt]
+            for x in args:
+                fallback.extend(pieces(x, depth + 1))
+            if not (isinstance(fmt, ast.Constant) and isinstance(fmt.value, str)):
+                return fallback
+            rest = directive.sub('', fmt.value)
+            if any(ch in rest for ch in ('%' if directive is _PCT else '{}')):
+                return fallback      # a directive this model does not split (width, mapping key, conversion, ...)
+            out, pos, i = [], 0, 0
+            for m in directive.finditer(fmt.value):
+                lit = fmt.value[pos:m.start()]
+                if m.group(0) in ('%%', '{{', '}}'):
+                    lit += m.group(0)[0]
+                if lit:
+                    out.append(ast.copy_location(ast.Constant(value=lit), fmt))
+                pos = m.end()
+                if m.group(0) in ('%%', '{{', '}}'):
+                    continue
+                if i >= len(args):
+                    return fallback
+                out.extend(pieces(args[i], depth + 1))
+                i += 1
+            if fmt.value[pos:]:
+                out.append(ast.copy_location(ast.Constant(value=fmt.value[pos:]), fmt))
+            if i != len(args):
+                return fallback
+            return out
+
+        def pieces(e, depth=0):
+            """Flatten a string-building expression into its concatenated pieces."""
+            if depth > 8:
+                return [e]
+            if isinstance(e, ast.Name):
+                srcs = [s.value for s in stmts_of(f.node) if isinstance(s, ast.Assign) and norm(s.targets[0]) == e.id]
+                if len(srcs) == 1 and e.id not in taint_roots:
+                    return pieces(srcs[0], depth + 1)
+                return [e]
+            if isinstance(e, ast.Call) and isinstance(e.func, ast.Attribute) and e.func.attr == 'join' and len(e.args) == 1:
+                inner = pieces(e.args[0], depth + 1)
+                return inner
+            if isinstance(e, (ast.List, ast.Tuple)):
+                out = []
+                for x in e.elts:
+                    out.extend(pieces(x, depth + 1))
+                return out
+            if isinstance(e, ast.BinOp) and isinstance(e.op, ast.Add):
+                return pieces(e.left, depth + 1) + pieces(e.right, depth + 1)
+            if isinstance(e, ast.BinOp) and isinstance(e.op, ast.Mod):
+                r = e.right.elts if isinstance(e.right, ast.Tuple) else [e.right]
+                return _interleave(e.left, _PCT, r, depth)
+            if isinstance(e, ast.JoinedStr):
+                out = []
+                for v in e.values:
+                    out.extend(pieces(v.value if isinstance(v, ast.FormattedValue) else v, depth + 1))
+                return out
+            if isinstance(e, ast.Call) and isinstance(e.func, ast.Attribute) and e.func.attr == 'format':
+                if e.keywords or any(isinstance(x, ast.Starred) for x in e.args):
+                    out = [e.func.value]
+                    for x in list(e.args) + [k.value for k in e.keywords]:
+                        out.extend(pieces(x, depth + 1))
+                    return out
+                return _interleave(e.func.value, _BRACE, list(e.args), depth)
             return [e]
+        # locals carrying (decoded) request-path text: bound to request.path or to the normalised path, or computed from such a
+        # local by anything but a URL-quoting call
+        req_path = '%s.path' % dv.request
+        taint_roots, tainted_names = {npv}, {npv}
+        from ..astutil import assigned_value
+        all_locals = set(n.id for n in walk_body(f.node) if isinstance(n, ast.Name) and isinstance(n.ctx, ast.Store))
+        for name in all_locals:
+            for st_, val_, idx_ in assigned_value(f.node, name):
+                v_ = val_.elts[idx_] if isinstance(idx_, int) and isinstance(val_, (ast.Tuple, ast.List)) and len(val_.elts) > idx_ else val_
+                if isinstance(v_, ast.expr) and norm(v_) == req_path:
+                    taint_roots.add(name)
+                    tainted_names.add(name)
+        grew = True
+        while grew:
+            grew = False
+            for s_ in stmts_of(f.node):
+                if isinstance(s_, ast.Assign) and len(s_.targets) == 1 and isinstance(s_.targets[0], ast.Name) and s_.targets[0].id not in tainted_names \
+                        and not (isinstance(s_.value, ast.Call) and call_tail(s_.value) in QUOTERS) \
+                        and (req_path in norm(s_.value) or names_loaded(s_.value) & tainted_names):
+                    tainted_names.add(s_.targets[0].id)
+                    grew = True
+        ps = pieces(arg)
+
+        def is_path_tainted(e):
+            names = names_loaded(e)
+            return bool(names & tainted_names) or req_path in norm(e)
+        path_pieces = [p for p in ps if is_path_tainted(p)]
+        # names derived from request.query_string (fixpoint over the assignments of dispatch)
+        qvars = set()
+        grew = True
+        while grew:
+            grew = False
+            for s_ in stmts_of(f.node):
+                if isinstance(s_, ast.Assign) and len(s_.targets) == 1 and isinstance(s_.targets[0], ast.Name) and \
+                        s_.targets[0].id not in qvars and ('query_string' in norm(s_.value) or names_loaded(s_.value) & qvars):
+                    qvars.add(s_.targets[0].id)
+                    grew = True
+
+        def is_query(e):
+            return 'query_string' in norm(e) or bool(names_loaded(e) & qvars)
+        query_pieces = [p for p in ps if is_query(p) and not is_path_tainted(p)]
+        root_pieces = [p for p in ps if 'url_root' in norm(p) or 'host_url' in norm(p)]
+        ok = len(path_pieces) >= 1
+        rep.check('R07.b', fkey(f, 'Location has the canonical path'), ok and any(npv in names_loaded(p) for p in path_pieces),
+                  'the Location is built from the canonical path' if ok else 'the Location does not contain the canonical path', app, rst)
+        for p in path_pieces:
+            good = isinstance(p, ast.Call) and call_tail(p) in QUOTERS and p.args and is_path_tainted(p.args[0])
+            why = ''
+            if good:
+                safe = kwarg(p, 'safe') or (p.args[3] if len(p.args) > 3 and call_tail(p) == 'url_quote' else None) or \
+                    (p.args[1] if len(p.args) > 1 and call_tail(p) == 'quote' else None)
+                if safe is not None:
+                    sv = repo.try_fold(safe, app)
+                    if not isinstance(sv, str) or any(ch in sv for ch in '?#%'):
+                        good = False
+                        why = ' (its safe set %r lets ?, # or %% through)' % (sv,)
+            rep.check('R07.b', fkey(f, 'path piece ' + norm(p)), good,
+                      'decoded path is URL-quoted before entering the Location: %s' % short(p) if good else
+                      'the decoded request path reaches redirect() without URL-quoting%s: a segment containing ?, # or %% makes the '
+                      'Location name a different resource' % why, app, rst)
+        def query_form_ok(e, selfname=None, depth=0):
+            """request.query_string, possibly decoded, possibly percent-encoded by a quoter whose safe set keeps the
+            query's own structure ('%', '&', '=', '+') -- i.e. an already encoded query is not encoded twice."""
+            if depth > 4:
+                return False
+            if norm(e) == 'request.query_string' or (selfname and isinstance(e, ast.Name) and e.id == selfname):
+                return True
+            if isinstance(e, ast.Call) and isinstance(e.func, ast.Attribute) and e.func.attr == 'decode':
+                return query_form_ok(e.func.value, selfname, depth + 1)
+            if isinstance(e, ast.Call) and call_tail(e) in QUOTERS and e.args:
+                safe = kwarg(e, 'safe') or (e.args[3] if len(e.args) > 3 and call_tail(e) == 'url_quote' else None) or \
+                    (e.args[1] if len(e.args) > 1 and call_tail(e) == 'quote' else None)
+                sv = repo.try_fold(safe, app) if safe is not None else None
+                return isinstance(sv, str) and all(ch in sv for ch in '%&=+') and query_form_ok(e.args[0], selfname, depth + 1)
+            return False
+        ok = len(query_pieces) == 1
+        if ok:
+            q = query_pieces[0]
+            if isinstance(q, ast.Name):
+                asg = [s_.value for s_ in stmts_of(f.node) if isinstance(s_, ast.Assign) and norm(s_.targets[0]) == q.id]
+                ok = bool(asg) and all(query_form_ok(v, q.id) for v in asg) and any(query_form_ok(v) for v in asg)
+            else:
+                ok = query_form_ok(q)
+        rep.check('R07.b', fkey(f, 'query piece'), ok, 'the query string is passed through unchanged (not re-quoted)' if ok else
+                  'the query string is missing from the Location, altered or re-quoted: %s' % [norm(q) for q in query_pieces], app, rst)
+        ok = len(root_pieces) == 1 and norm(root_pieces[0]).startswith('request.url_root')
+        rep.check('R07.b', fkey(f, 'prefix piece'), ok, 'the prefix is request.url_root (scheme, host, script root)' if ok else
+                  'the Location prefix is not request.url_root', app, rst)
+        # order: root, path, '?', query
+        order = [('root' if p in root_pieces else 'path' if p in path_pieces else 'query' if p in query_pieces else
+                  ('?' if isinstance(p, ast.Constant) and p.value == '?' else 'other')) for p in ps]
+        order = [o for o in order if o != 'other']
+        ok = order == ['root', 'path', '?', 'query']
+        rep.check('R07.b', fkey(f, 'piece order'), ok, 'Location = root + quoted path + "?" + query' if ok else 'Location pieces are ordered %s' % order, app, rst)
+        # werkzeug redirect is not a sanitiser: fact check on the pinned source
+        wu = repo.mod('werkzeug.utils')
+        rd = wu.func('redirect')
+        fact = any(isinstance(c, ast.Call) and call_tail(c) == 'iri_to_uri' and isinstance(kwarg(c, 'safe_conversion'), ast.Constant)
+                   for c in walk_body(rd.node))
+        rep.check('R07.b', 'werkzeug.utils::redirect', fact, 'model: redirect() applies iri_to_uri(safe_conversion=True) only (no quoting of ?, #, %)' if fact else
+                  'werkzeug redirect() model out of date', wu, rd.node)
+        rep.floor('R07.b', 6)
+
+
+    def plumbing_rules():
+        check_slash_plumbing(rep, 'R07.c')
+        rep.floor('R07.c', 12)
+
+    def canonical_form_rules():
+        check_normalize_path(rep, 'R07.d')
+    rep.rule('R07.d', 'shape of normalize_path: drop empty segments, one leading slash, one trailing slash iff branch')
+    # each group is analysed on its own: a construct one group cannot follow does not hide the verdicts of the others
+    for group in (redirect_rules, plumbing_rules, canonical_form_rules):
+        run_group(rep, group)
+
+
+class _NP(object):
+    """Abstract interpretation of normalize_path over the shapes a canonical path can be built from.
+
+    Values: ('segs', lead, trail)  a list: lead x '' + <non-empty parts of path.split('/')> + trail x ''
+            ('str', lead, trail)   a string: lead x '/' + '/'.join(<non-empty parts>) + trail x '/'
+            ('const', v), ('other',)
+    Lists are mutable objects shared between the names bound to them (``append`` / ``insert`` are seen through
+    aliases).  Every path through the function is followed separately, recording what it assumed about the segment
+    list (empty or not) and about is_branch."""
+
+    def __init__(self, fi):
+        self.fi = fi
+        ps = fi.params()
+        self.path, self.branch = ps[0], ps[1]
+        self.outcomes = []      # (facts, value or None)   None = fell off the end / unmodelled statement
+        self.unmodelled = []
+        self.seg_defs = 0
+
+    # -- expressions: list of (facts, value) alternatives ------------------------------------------------
+    def _is_split(self, e):
+        return norm(e) == "%s.split('/')" % self.path
+
+    def _segments(self, e):
+        if isinstance(e, ast.ListComp) and len(e.generators) == 1 and self._is_split(e.generators[0].iter) and \
+                isinstance(e.generators[0].target, ast.Name) and norm(e.elt) == e.generators[0].target.id:
+            x = e.generators[0].target.id
+            return [norm(i) for i in e.generators[0].ifs] in ([x], ["%s != ''" % x], ['len(%s)' % x], ['len(%s) > 0' % x])
+        if isinstance(e, ast.Call) and call_name(e) == 'list' and len(e.args) == 1 and not e.keywords:
+            f_ = e.args[0]
+            return isinstance(f_, ast.Call) and call_name(f_) == 'filter' and len(f_.args) == 2 and not f_.keywords and \
+                norm(f_.args[0]) in ('None', 'bool', 'len') and self._is_split(f_.args[1])
+        return False
+
+    def ev(self, e, st, facts):
+        if isinstance(e, ast.Constant):
+            return [(facts, ('const', e.value))]
         if isinstance(e, ast.Name):
-            srcs = [s.value for s in stmts_of(f.node) if isinstance(s, ast.Assign) and norm(s.targets[0]) == e.id]
-            if len(srcs) == 1 and e.id not in ('url_path', npv):
-                return pieces(srcs[0], depth + 1)
-            return [e]
-        if isinstance(e, ast.Call) and isinstance(e.func, ast.Attribute) and e.func.attr == 'join' and len(e.args) == 1:
-            inner = pieces(e.args[0], depth + 1)
-            return inner
-        if isinstance(e, (ast.List, ast.Tuple)):
+            return [(facts, st.get(e.id, ('other',)))]
+        if self._segments(e):
+            self.seg_defs += 1
+            return [(facts, ['segs', 0, 0])]
+        if isinstance(e, ast.List) and len(e.elts) == 1 and isinstance(e.elts[0], ast.Constant) and e.elts[0].value == '':
+            return [(facts, ('empties', 1))]
+        if isinstance(e, ast.IfExp):
             out = []
-            for x in e.elts:
-                out.extend(pieces(x, depth + 1))
+            for f2, pol in self.test(e.test, st, facts):
+                out.extend(self.ev(e.body if pol else e.orelse, st, f2))
             return out
         if isinstance(e, ast.BinOp) and isinstance(e.op, ast.Add):
-            return pieces(e.left, depth + 1) + pieces(e.right, depth + 1)
-        if isinstance(e, ast.BinOp) and isinstance(e.op, ast.Mod):
-            r = e.right.elts if isinstance(e.right, ast.Tuple) else [e.right]
-            out = [e.left]
-            for x in r:
-                out.extend(pieces(x, depth + 1))
-            return out
-        if isinstance(e, ast.JoinedStr):
             out = []
-            for v in e.values:
-                out.extend(pieces(v.value if isinstance(v, ast.FormattedValue) else v, depth + 1))
+            for f1, a_ in self.ev(e.left, st, facts):
+                for f2, b_ in self.ev(e.right, st, f1):
+                    out.append((f2, self.add(a_, b_)))
             return out
-        if isinstance(e, ast.Call) and isinstance(e.func, ast.Attribute) and e.func.attr == 'format':
-            out = [e.func.value]
-            for x in list(e.args) + [k.value for k in e.keywords]:
-                out.extend(pieces(x, depth + 1))
+        if isinstance(e, ast.Call) and isinstance(e.func, ast.Attribute) and e.func.attr == 'join' and len(e.args) == 1 and not e.keywords and \
+                isinstance(e.func.value, ast.Constant) and e.func.value.value == '/':
+            return [(f1, ('str', v[1], v[2]) if isinstance(v, list) else ('other',)) for f1, v in self.ev(e.args[0], st, facts)]
+        return [(facts, ('other',))]
+
+    @staticmethod
+    def add(a_, b_):
+        if a_[0] == 'empties' and isinstance(b_, list):
+            return ['segs', b_[1] + a_[1], b_[2]]          # a new list
+        if isinstance(a_, list) and b_[0] == 'empties':
+            return ['segs', a_[1], a_[2] + b_[1]]
+        if a_[0] == 'const' and a_[1] == '/' and b_[0] == 'str':
+            return ('str', b_[1] + 1, b_[2])
+        if a_[0] == 'str' and b_[0] == 'const' and b_[1] == '/':
+            return ('str', a_[1], a_[2] + 1)
+        if a_[0] == 'str' and b_[0] == 'const' and b_[1] == '':
+            return a_
+        if b_[0] == 'str' and a_[0] == 'const' and a_[1] == '':
+            return b_
+        return ('other',)
+
+    def test(self, t, st, facts):
+        """[(facts, outcome)] for the feasible outcomes of test ``t``"""
+        pol = True
+        while isinstance(t, ast.UnaryOp) and isinstance(t.op, ast.Not):
+            t, pol = t.operand, not pol
+        key = None
+        if isinstance(t, ast.Name) and t.id == self.branch and t.id not in st:
+            key = 'branch'
+        elif isinstance(t, ast.Name) and isinstance(st.get(t.id), list) and st[t.id][1] == 0 and st[t.id][2] == 0:
+            key = 'nonempty'
+        if key is None:
+            return [(dict(facts, opaque=True), True), (dict(facts, opaque=True), False)]
+        out = []
+        for truth in (True, False):
+            if facts.get(key) in (None, truth):
+                out.append((dict(facts, **{key: truth}), truth is pol))
+        return out
+
+    # -- statements --------------------------------------------------------------------------------------
+    def run(self):
+        for st, facts in self.block(self.fi.node.body, {}, {}):
+            self.outcomes.append((facts, None))
+
+    def block(self, stmts, st, facts):
+        """runs the statements; returns the [(state, facts)] that fall off the end"""
+        import copy
+        live = [(st, facts)]
+        for s in stmts:
+            nxt = []
+            for st1, f1 in live:
+                nxt.extend(self.stmt(s, st1, f1))
+            live = nxt
+        return live
+
+    def stmt(self, s, st, facts):
+        import copy
+        if isinstance(s, ast.Expr) and isinstance(s.value, ast.Constant):
+            return [(st, facts)]
+        if isinstance(s, ast.Pass):
+            return [(st, facts)]
+        if isinstance(s, ast.Return):
+            for f1, v in self.ev(s.value, st, facts) if s.value is not None else [(facts, ('const', None))]:
+                self.outcomes.append((f1, tuple(v) if isinstance(v, list) else v))
+            return []
+        if isinstance(s, ast.Assign) and len(s.targets) == 1 and isinstance(s.targets[0], ast.Name):
+            out = []
+            for f1, v in self.ev(s.value, st, facts):
+                st2 = copy.deepcopy(st)
+                if isinstance(s.value, ast.Name) and isinstance(st.get(s.value.id), list):
+                    v = st2[s.value.id]          # alias of the same list object
+                st2[s.targets[0].id] = v
+                out.append((st2, f1))
             return out
-        return [e]
-    ps = pieces(arg)
-    tainted_names = {'url_path', npv}
-
-    def is_path_tainted(e):
-        names = names_loaded(e)
-        return bool(names & tainted_names) or 'request.path' in norm(e)
-    path_pieces = [p for p in ps if is_path_tainted(p)]
-    # names derived from request.query_string (fixpoint over the assignments of dispatch)
-    qvars = set()
-    grew = True
-    while grew:
-        grew = False
-        for s_ in stmts_of(f.node):
-            if isinstance(s_, ast.Assign) and len(s_.targets) == 1 and isinstance(s_.targets[0], ast.Name) and \
-                    s_.targets[0].id not in qvars and ('query_string' in norm(s_.value) or names_loaded(s_.value) & qvars):
-                qvars.add(s_.targets[0].id)
-                grew = True
-
-    def is_query(e):
-        return 'query_string' in norm(e) or bool(names_loaded(e) & qvars)
-    query_pieces = [p for p in ps if is_query(p) and not is_path_tainted(p)]
-    root_pieces = [p for p in ps if 'url_root' in norm(p) or 'host_url' in norm(p)]
-    ok = len(path_pieces) >= 1
-    rep.check('R07.b', fkey(f, 'Location has the canonical path'), ok and any(npv in names_loaded(p) for p in path_pieces),
-              'the Location is built from the canonical path' if ok else 'the Location does not contain the canonical path', app, rst)
-    for p in path_pieces:
-        good = isinstance(p, ast.Call) and call_tail(p) in QUOTERS and p.args and is_path_tainted(p.args[0])
-        why = ''
-        if good:
-            safe = kwarg(p, 'safe') or (p.args[3] if len(p.args) > 3 and call_tail(p) == 'url_quote' else None) or \
-                (p.args[1] if len(p.args) > 1 and call_tail(p) == 'quote' else None)
-            if safe is not None:
-                sv = repo.try_fold(safe, app)
-                if not isinstance(sv, str) or any(ch in sv for ch in '?#%'):
-                    good = False
-                    why = ' (its safe set %r lets ?, # or %% through)' % (sv,)
-        rep.check('R07.b', fkey(f, 'path piece ' + norm(p)), good,
-                  'decoded path is URL-quoted before entering the Location: %s' % short(p) if good else
-                  'the decoded request path reaches redirect() without URL-quoting%s: a segment containing ?, # or %% makes the '
-                  'Location name a different resource' % why, app, rst)
-    def query_form_ok(e, selfname=None, depth=0):
-        """request.query_string, possibly decoded, possibly percent-encoded by a quoter whose safe set keeps the
-        query's own structure ('%', '&', '=', '+') -- i.e. an already encoded query is not encoded twice."""
-        if depth > 4:
-            return False
-        if norm(e) == 'request.query_string' or (selfname and isinstance(e, ast.Name) and e.id == selfname):
-            return True
-        if isinstance(e, ast.Call) and isinstance(e.func, ast.Attribute) and e.func.attr == 'decode':
-            return query_form_ok(e.func.value, selfname, depth + 1)
-        if isinstance(e, ast.Call) and call_tail(e) in QUOTERS and e.args:
-            safe = kwarg(e, 'safe') or (e.args[3] if len(e.args) > 3 and call_tail(e) == 'url_quote' else None) or \
-                (e.args[1] if len(e.args) > 1 and call_tail(e) == 'quote' else None)
-            sv = repo.try_fold(safe, app) if safe is not None else None
-            return isinstance(sv, str) and all(ch in sv for ch in '%&=+') and query_form_ok(e.args[0], selfname, depth + 1)
-        return False
-    ok = len(query_pieces) == 1
-    if ok:
-        q = query_pieces[0]
-        if isinstance(q, ast.Name):
-            asg = [s_.value for s_ in stmts_of(f.node) if isinstance(s_, ast.Assign) and norm(s_.targets[0]) == q.id]
-            ok = bool(asg) and all(query_form_ok(v, q.id) for v in asg) and any(query_form_ok(v) for v in asg)
-        else:
-            ok = query_form_ok(q)
-    rep.check('R07.b', fkey(f, 'query piece'), ok, 'the query string is passed through unchanged (not re-quoted)' if ok else
-              'the query string is missing from the Location, altered or re-quoted: %s' % [norm(q) for q in query_pieces], app, rst)
-    ok = len(root_pieces) == 1 and norm(root_pieces[0]).startswith('request.url_root')
-    rep.check('R07.b', fkey(f, 'prefix piece'), ok, 'the prefix is request.url_root (scheme, host, script root)' if ok else
-              'the Location prefix is not request.url_root', app, rst)
-    # order: root, path, '?', query
-    order = [('root' if p in root_pieces else 'path' if p in path_pieces else 'query' if p in query_pieces else
-              ('?' if isinstance(p, ast.Constant) and p.value == '?' else 'other')) for p in ps]
-    order = [o for o in order if o != 'other']
-    ok = order == ['root', 'path', '?', 'query']
-    rep.check('R07.b', fkey(f, 'piece order'), ok, 'Location = root + quoted path + "?" + query' if ok else 'Location pieces are ordered %s' % order, app, rst)
-    # werkzeug redirect is not a sanitiser: fact check on the pinned source
-    wu = repo.mod('werkzeug.utils')
-    rd = wu.func('redirect')
-    fact = any(isinstance(c, ast.Call) and call_tail(c) == 'iri_to_uri' and isinstance(kwarg(c, 'safe_conversion'), ast.Constant)
-               for c in walk_body(rd.node))
-    rep.check('R07.b', 'werkzeug.utils::redirect', fact, 'model: redirect() applies iri_to_uri(safe_conversion=True) only (no quoting of ?, #, %)' if fact else
-              'werkzeug redirect() model out of date', wu, rd.node)
-    rep.floor('R07.b', 6)
-
-    # ---- R07.c -----------------------------------------------------------
-    check_slash_plumbing(rep, 'R07.c')
-    rep.floor('R07.c', 12)
-
-    # ---- R07.d -----------------------------------------------------------
-    rep.rule('R07.d', 'shape of normalize_path: drop empty segments, one leading slash, one trailing slash iff branch')
-    check_normalize_path(rep, 'R07.d')
+        if isinstance(s, ast.AugAssign) and isinstance(s.target, ast.Name) and isinstance(s.op, ast.Add):
+            out = []
+            for f1, v in self.ev(s.value, st, facts):
+                st2 = copy.deepcopy(st)
+                cur = st2.get(s.target.id, ('other',))
+                if isinstance(cur, list) and v[0] == 'empties':
+                    cur[2] += v[1]               # in-place extension of the list object
+                else:
+                    st2[s.target.id] = self.add(cur, v)
+                out.append((st2, f1))
+            return out
+        if isinstance(s, ast.Expr) and isinstance(s.value, ast.Call) and isinstance(s.value.func, ast.Attribute) and \
+                isinstance(s.value.func.value, ast.Name) and isinstance(st.get(s.value.func.value.id), list) and not s.value.keywords:
+            c = s.value
+            st2 = copy.deepcopy(st)
+            obj = st2[c.func.value.id]
+            if c.func.attr == 'append' and [norm(a_) for a_ in c.args] == ["''"]:
+                obj[2] += 1
+                return [(st2, facts)]
+            if c.func.attr == 'insert' and [norm(a_) for a_ in c.args] == ['0', "''"]:
+                obj[1] += 1
+                return [(st2, facts)]
+        if isinstance(s, ast.If):
+            out = []
+            for f1, pol in self.test(s.test, st, facts):
+                import copy as _c
+                out.extend(self.block(s.body if pol else s.orelse, _c.deepcopy(st), f1))
+            return out
+        self.unmodelled.append(s)
+        self.outcomes.append((dict(facts, unmodelled=True), None))
+        return []
 
 
 def check_normalize_path(rep, rule):
-    """The canonical form is built as: non-empty segments of path.split('/'), prefixed by one '',
-    suffixed by one '' exactly when is_branch, joined with '/'; '/' when there are no segments.
-    (Decides the *construction*, from which idempotence follows; the value-level fixed-point claim itself
-    is declined.)"""
+    """The canonical form is: the non-empty segments of path.split('/') joined with '/', behind exactly one leading
+    slash, followed by exactly one trailing slash exactly when is_branch; '/' when there are no segments.  The
+    function is followed path by path over list- and string-building operations (``[''] + segs``, ``.append('')``,
+    ``'/'.join(..)``, ``'/' + s``, ``s += '/'``, conditional expressions), so either construction is recognised.
+    (Decides the *construction*, from which idempotence follows; the value-level fixed-point claim itself is declined.)"""
     from .. import effects
     repo = rep.repo
     route = repo.mod(ROUTE)
     fi = route.func('normalize_path')
-    ps = fi.params()   # path, is_branch
-    cfg = cfg_of(fi)
-    rets = returns_of(fi)
-    joins = [r for r in rets if isinstance(r.value, ast.Call) and call_tail(r.value) == 'join' and
-             isinstance(r.value.func.value, ast.Constant) and r.value.func.value.value == '/']
-    roots = [r for r in rets if isinstance(r.value, ast.Constant) and r.value.value == '/']
-    ok = len(joins) == 1 and len(roots) == 1 and len(rets) == 2 and isinstance(joins[0].value.args[0], ast.Name)
-    rep.check(rule, fkey(fi, 'returns'), ok, "returns '/' or '/'.join(<segment list>)" if ok else
-              "normalize_path does not return '/' / '/'.join(segments)", route, fi.node)
+    if len(fi.params()) < 2:
+        raise AnalysisError('normalize_path: expected parameters (path, is_branch)')
+    np_ = _NP(fi)
+    np_.run()
+    outs = np_.outcomes
+    ok = bool(outs) and all(v is not None and not f.get('opaque') for f, v in outs) and \
+        all(v[0] in ('const', 'str') for f, v in outs if v is not None)
+    rep.check(rule, fkey(fi, 'returns'), ok, "every path returns '/' or a '/'-joined string built from the segment list" if ok else
+              "normalize_path does not return '/' / '/'.join(segments)", route, (np_.unmodelled or [fi.node])[0])
     if not ok:
         return
-    L = joins[0].value.args[0].id
-    src = [s for s in stmts_of(fi.node) if isinstance(s, ast.Assign) and norm(s.targets[0]) == L]
-    filt = [s for s in src if isinstance(s.value, ast.ListComp) and len(s.value.generators) == 1 and
-            norm(s.value.generators[0].iter) == "%s.split('/')" % ps[0] and
-            norm(s.value.elt) == norm(s.value.generators[0].target) and
-            [norm(i) for i in s.value.generators[0].ifs] in ([norm(s.value.elt)], ["%s != ''" % norm(s.value.elt)], ['len(%s)' % norm(s.value.elt)],
-                                                             ['len(%s) > 0' % norm(s.value.elt)])]
-    ok = len(filt) == 1 and src[0] is filt[0]
+    built = [(f, v) for f, v in outs if v[0] == 'str']
+    ok = bool(built) and np_.seg_defs >= 1
     rep.check(rule, fkey(fi, 'segments'), ok, 'segments = the non-empty parts of path.split(\'/\') (repeated slashes vanish)' if ok else
-              'the segment list is not "non-empty parts of path.split(\'/\')"', route, src[0] if src else fi.node)
-    cs = conds(fi, roots[0])
-    ok = has_cond(cs, lambda t: norm(t) == L, False) and not any(ps[1] in norm(t) for t, p in cs)
-    rep.check(rule, fkey(fi, 'root'), ok, "no segments => '/'" if ok else "the '/' result is not returned exactly when there are no segments", route, roots[0])
-    lead = [s for s in src[1:] if norm(s.value) in ("[''] + %s" % L,)] + \
-        [stmt_of(route, c) for c in walk_body(fi.node) if isinstance(c, ast.Call) and norm(c.func) == '%s.insert' % L and
-         [norm(a) for a in c.args] == ['0', "''"]]
-    ok = len(lead) == 1 and cfg.must_pass(cfg.nodes_of(lead[0]), cfg.entry, cfg.nodes_of(joins[0])) and \
-        not (set(cfg.nodes_of(lead[0])) & cfg.reach([m for n in cfg.nodes_of(lead[0]) for m in cfg.succ[n]]))
+              'the segment list is not "non-empty parts of path.split(\'/\')"', route, fi.node)
+    roots = [(f, v) for f, v in outs if v[0] == 'const']
+    ok = bool(roots) and all(v[1] == '/' and f.get('nonempty') is False for f, v in roots) and \
+        all(f.get('nonempty') is True for f, v in built)
+    rep.check(rule, fkey(fi, 'root'), ok, "no segments => '/'" if ok else "the '/' result is not returned exactly when there are no segments", route, fi.node)
+    ok = bool(built) and all(v[1] == 1 for f, v in built)
     rep.check(rule, fkey(fi, 'leading slash'), ok, "exactly one leading '' is prepended (one leading slash)" if ok else
-              'the canonical form does not get exactly one leading slash', route, lead[0] if lead else fi.node)
-    trail = [stmt_of(route, c) for c in walk_body(fi.node) if isinstance(c, ast.Call) and norm(c.func) == '%s.append' % L and
-             [norm(a) for a in c.args] == ["''"]] + [s for s in src[1:] if norm(s.value) == "%s + ['']" % L]
-    ok = len(trail) == 1
-    if ok:
-        tcs = conds(fi, trail[0])
-        ok = has_cond(tcs, lambda t: norm(t) == ps[1], True) and len([1 for t, p in tcs if ps[1] in norm(t)]) == 1 and \
-            bool(set(cfg.nodes_of(joins[0])) & cfg.reach(cfg.nodes_of(trail[0]), normal_only=True))
-        # and the non-branch path reaches the join without a trailing ''
-        fb = cfg.branch_nodes([t for t, p in tcs if norm(t) == ps[1]][0], False) if ok else []
-        ok = ok and bool(fb) and bool(set(cfg.nodes_of(joins[0])) & cfg.reach(fb, avoid=cfg.nodes_of(trail[0]), normal_only=True))
+              'the canonical form does not get exactly one leading slash', route, fi.node)
+    ok = bool(built) and all(f.get('branch') in (True, False) and v[2] == (1 if f['branch'] else 0) for f, v in built) and \
+        set(f.get('branch') for f, v in built) == {True, False}
     rep.check(rule, fkey(fi, 'trailing slash'), ok, "a trailing '' is appended exactly when is_branch" if ok else
-              'the trailing slash is not added exactly when is_branch', route, trail[0] if trail else fi.node)
-    others = [e for e in effects.effects_in(fi.node) if not (e.root == L)]
-    muts = [e for e in effects.effects_in(fi.node) if e.root == L]
-    ok = not others and len(muts) <= 2 and len(src) <= 2
+              'the trailing slash is not added exactly when is_branch', route, fi.node)
+    local_names = set(n.id for n in walk_body(fi.node) if isinstance(n, ast.Name) and isinstance(n.ctx, ast.Store)) - set(fi.params())
+    others = [e for e in effects.effects_in(fi.node) if e.root not in local_names]
+    ok = not others
     rep.check(rule, fkey(fi, 'nothing else'), ok, 'no other operation touches the segment list; the function is pure' if ok else
               'normalize_path performs further operations on the segments / has side effects', route, fi.node)
 
@@ -325,17 +600,29 @@ def check_slash_plumbing(rep, rule):
     app, route = repo.mod(APP), repo.mod(ROUTE)
     bi = route.func('BoundRoute.__init__')
     sm = [s for s in stmts_of(bi.node) if isinstance(s, ast.Assign) and norm(s.targets[0]) == 'self.slash_mode']
-    ok = False
-    if len(sm) == 1 and isinstance(sm[0].value, ast.IfExp):
-        v = sm[0].value
-        ok = norm(v.test) == 'inherit_slashes' and norm(v.body) == '%s.slash_mode' % bi.params()[2] and norm(v.orelse) == '%s.slash_mode' % bi.params()[1]
-        ok = ok or (norm(v.test) == 'not inherit_slashes' and norm(v.orelse) == '%s.slash_mode' % bi.params()[2] and norm(v.body) == '%s.slash_mode' % bi.params()[1])
-    elif len(sm) == 2:
-        c0, c1 = conds(bi, sm[0]), conds(bi, sm[1])
-        for s, cs_ in ((sm[0], c0), (sm[1], c1)):
-            pass
-        ok = any(has_cond(conds(bi, s), lambda t: norm(t) == 'inherit_slashes', True) and norm(s.value) == '%s.slash_mode' % bi.params()[2] for s in sm) and \
-            any(has_cond(conds(bi, s), lambda t: norm(t) == 'inherit_slashes', False) and norm(s.value) == '%s.slash_mode' % bi.params()[1] for s in sm)
+    bcfg_ = cfg_of(bi)
+    defs_ = Defs(bcfg_, bi.node)
+    # the alternatives self.slash_mode can receive, each with the conditions under which it is chosen
+    alts = []
+    for s in sm:
+        if isinstance(s.value, ast.IfExp):
+            alts.append((s.value.body, conds(bi, s) + [(s.value.test, True)]))
+            alts.append((s.value.orelse, conds(bi, s) + [(s.value.test, False)]))
+            continue
+        rd = None
+        if isinstance(s.value, ast.Name):
+            nodes_ = bcfg_.nodes_of(s)
+            rd = defs_.reaching(s.value.id, nodes_[0]) if len(nodes_) == 1 else None
+        if rd:
+            for dst, val, mid in rd:
+                alts.append((val, [(t, p) for t, p in bcfg_.conds_at_stmt(dst) if not bcfg_._kills(t, mid)]))
+        else:
+            alts.append((s.value, conds(bi, s)))
+    from ..cfg import expand_conds
+    alts = [(v, expand_conds(cs)) for v, cs in alts]
+    inh = lambda t: norm(t) == 'inherit_slashes'
+    want = {True: '%s.slash_mode' % bi.params()[2], False: '%s.slash_mode' % bi.params()[1]}
+    ok = len(alts) == 2 and all(any(norm(v) == want[pol] and has_cond(cs, inh, pol) for v, cs in alts) for pol in (True, False))
     rep.check(rule, fkey(bi, 'self.slash_mode'), ok, 'slash_mode = app.slash_mode if inherit_slashes else route.slash_mode' if ok else
               'BoundRoute.slash_mode is not selected by inherit_slashes between the application\'s and the route\'s mode', route, sm[0] if sm else bi.node)
     cp = [c for c in walk_body(bi.node) if isinstance(c, ast.Call) and call_name(c) == '_compile_path_pattern']
@@ -357,8 +644,24 @@ def check_bound_regex(rep, rule):
     bcfg = cfg_of(bi)
     writers = [s for s in stmts_of(bi.node) if isinstance(s, ast.Assign) and
                any(norm(x) in ('self.regex', 'self.converters') for t in s.targets for x in (t.elts if isinstance(t, ast.Tuple) else [t]))]
-    ok = len(cp) == 1 and bcfg.must_pass(bcfg.nodes_of(stmt_of(route, cp[0])), bcfg.entry, bcfg.exit, normal_only=True) and \
-        len(writers) == 1 and writers[0] is stmt_of(route, cp[0])
+    cp_st = stmt_of(route, cp[0]) if len(cp) == 1 else None
+
+    def from_compile(w):
+        """writer ``w`` stores the compile call's results: the call statement itself, or ``self.regex = r`` /
+        ``self.converters = c`` with r, c the locals unpacked from the call (first / second result)"""
+        if w is cp_st:
+            tg = w.targets[0]
+            return isinstance(tg, ast.Tuple) and [norm(x) for x in tg.elts] == ['self.regex', 'self.converters']
+        from ..astutil import assigned_value
+        if not (len(w.targets) == 1 and isinstance(w.value, ast.Name) and norm(w.targets[0]) in ('self.regex', 'self.converters')):
+            return False
+        av = assigned_value(bi.node, w.value.id)
+        return len(av) == 1 and av[0][0] is cp_st and av[0][1] is cp[0] and av[0][2] == (0 if norm(w.targets[0]) == 'self.regex' else 1)
+    stored = set(norm(x) for w in writers for t in w.targets for x in (t.elts if isinstance(t, ast.Tuple) else [t]) if norm(x) in ('self.regex', 'self.converters'))
+    ok = len(cp) == 1 and isinstance(cp_st, ast.Assign) and bcfg.must_pass(bcfg.nodes_of(cp_st), bcfg.entry, bcfg.exit, normal_only=True) and \
+        bool(writers) and all(from_compile(w) for w in writers) and stored == {'self.regex', 'self.converters'} and \
+        len(writers) == (1 if cp_st in writers else 2) and \
+        all(bcfg.must_pass(bcfg.nodes_of(w), bcfg.entry, bcfg.exit, normal_only=True) for w in writers)
     rep.check(rule, fkey(bi, 'regex always recompiled'), ok,
               'self.regex / self.converters come from compiling the prefixed pattern for this binding\'s mode, on every path' if ok else
               'a bound route can take its regex / converters from somewhere else than _compile_path_pattern(self.pattern, self.slash_mode) '
@@ -371,6 +674,31 @@ def check_bound_regex(rep, rule):
               'match_path matches with %s' % sorted(set(n.attr for n in uses)), route, mpf.node)
 
 
+def _forced_bind_key(fi, key, value_ok):
+    """``fi`` passes ``key`` to the bind call it delegates to, with a value satisfying ``value_ok``, and nothing the
+    caller supplied can override it: in the ``**mapping`` of the call the key's literal layer comes after every layer
+    taken from another mapping (``kw[key] = v``; ``dict(kw, key=v)``; ``{**kw, key: v}``), or it is an explicit keyword."""
+    from .. import layers
+    calls = [c for c in walk_body(fi.node) if isinstance(c, ast.Call) and call_tail(c) in ('bind', 'bind_all', 'BoundRoute')]
+    if not calls:
+        return False
+    for c in calls:
+        good = False
+        for k in c.keywords:
+            if k.arg == key:
+                good = value_ok(k.value)
+            elif k.arg is None:
+                lay = layers.layers_of_var(fi.node, k.value.id, 3) if isinstance(k.value, ast.Name) else layers.layers_of_expr(k.value)
+                last_src = max([i for i, l in enumerate(lay) if l.kind == 'source'] or [-1])
+                hits = [(i, l) for i, l in enumerate(lay) if l.kind == 'literal' and key in (l.keys or []) and not l.below]
+                if hits:
+                    i, l = hits[-1]
+                    good = i > last_src and value_ok((l.values or {}).get(key))
+        if not good:
+            return False
+    return True
+
+
 def _rest_of_slash_plumbing(rep, rule, bi, sm):
     repo = rep.repo
     app, route = repo.mod(APP), repo.mod(ROUTE)
@@ -380,8 +708,7 @@ def _rest_of_slash_plumbing(rep, rule, bi, sm):
     rep.check(rule, fkey(bi, 'inherit_slashes default'), ok, 'routes inherit the application\'s mode by default' if ok else
               'inherit_slashes does not default to True', route, bi.node)
     nb = route.func('NullRoute.bind')
-    ok = any(isinstance(s, ast.Assign) and norm(s.targets[0]) == "kw['inherit_slashes']" and isinstance(s.value, ast.Constant) and s.value.value is False
-             for s in stmts_of(nb.node))
+    ok = _forced_bind_key(nb, 'inherit_slashes', lambda v: isinstance(v, ast.Constant) and v.value is False)
     rep.check(rule, fkey(nb, 'inherit_slashes=False'), ok, 'the null route never inherits (stays rewrite): 404/405 are not redirected' if ok else
               'NullRoute.bind no longer forces inherit_slashes=False', route, nb.node)
     ni = route.func('NullRoute.__init__')
@@ -396,8 +723,8 @@ def _rest_of_slash_plumbing(rep, rule, bi, sm):
     rep.check(rule, fkey(sa, 'inherit_slashes'), ok, 'SubApplication(inherit_slashes=True) stores its flag' if ok else
               'SubApplication does not store inherit_slashes (default True)', app, sa.node)
     ba = app.func('SubApplication.bind_all')
-    ok = any(isinstance(c, ast.Call) and norm(c.func) == 'kwargs.setdefault' and c.args and isinstance(c.args[0], ast.Constant)
-             and c.args[0].value == 'inherit_slashes' and norm(c.args[1]) == 'self.inherit_slashes' for c in walk_body(ba.node))
+    fw = [(k, n, v) for k, n, v in bind_kwargs_written(ba) if k == 'inherit_slashes']
+    ok = bool(fw) and all(v is not None and norm(v) == 'self.inherit_slashes' for k, n, v in fw)
     rep.check(rule, fkey(ba, 'inherit_slashes forwarded'), ok, 'the embedding flag is forwarded to every re-bound route' if ok else
               'bind_all does not forward self.inherit_slashes', app, ba.node)
     for mod, q, want in ((app, 'Application.__init__', 'S_REDIRECT'), (route, 'Route.__init__', 'S_REDIRECT')):
